@@ -12,6 +12,11 @@
    contains at most one access to shared pipeline plstate, except the critical section whose segments
    are serialised by `write_mutex` anyway.  Atomics are sequentially consistent in this model.
 
+   (Repaired pipeline: a commit whose env.write / env.apply failed records the error in the batch, marks it
+   applied, publishes and then waits for the oneshot like a successful one, keeping its permit; publish()
+   completes a dequeued batch with the recorded error or Ok.  The flush task re-checks for pending
+   immutables after clearing `running` and notifies itself.)
+
    Blocking primitives are DISABLED transitions: `LLocked` needs the mutex free, `LSemAcquired` a
    permit, `LStallRegistered` after `LStallWait` a notify_waiters epoch change, `LRet` of a waiting
    committer its completion, `LMemWoken` a notify_one permit, `LStopJoin` both tasks idle.  The two
@@ -33,7 +38,7 @@ Record pbatch := {
   b_ins : nat;              (* ghost: entries b_seq .. b_seq+b_ins-1 are in some memtable *)
   b_applied : bool;         (* CommitBatch::applied *)
   b_res : option bool;      (* value sent through the oneshot: Some true = Ok(()), Some false = Err *)
-  b_fail : bool;            (* ghost: env.write or env.apply failed *)
+  b_fail : bool;            (* CommitBatch::failure is set: env.write or env.apply failed *)
   b_qref : bool;            (* the Arc reference owned by the queue / the dequeuer is alive *)
   b_oref : bool;            (* the committer's own Arc reference is alive *)
 }.
@@ -44,7 +49,8 @@ Definition set_ins (b : pbatch) (n : nat) : pbatch :=
 Definition set_applied (b : pbatch) : pbatch :=
   {| b_seq := b_seq b; b_cnt := b_cnt b; b_ins := b_ins b; b_applied := true; b_res := b_res b;
      b_fail := b_fail b; b_qref := b_qref b; b_oref := b_oref b |}.
-(* CommitBatch::complete: the first sender wins (the Sender is taken out of the Option) *)
+(* CommitBatch::complete: the first sender wins (the Sender is taken out of the Option); the only caller is
+   publish(), with Err when CommitBatch::failure is set (take_failure) and Ok otherwise *)
 Definition complete (b : pbatch) (r : bool) : pbatch :=
   {| b_seq := b_seq b; b_cnt := b_cnt b; b_ins := b_ins b; b_applied := b_applied b;
      b_res := match b_res b with Some x => Some x | None => Some r end;
@@ -93,8 +99,7 @@ Inductive ppc :=
 | CVisLoaded (p cur : nat)
 | CVisDone (p : nat)
 | CPubExit                   (* pub.exit *)
-| CWaitDone                  (* commit.published, success path: awaiting the oneshot *)
-| CRetErr                    (* commit.published, failure path: about to return the error *)
+| CWaitDone                  (* commit.published: awaiting the oneshot (success and failure alike, permit held) *)
 | CReturned (r : result).
 
 Record thr := {
@@ -103,25 +108,22 @@ Record thr := {
   t_seq : nat;       (* allocated first sequence number *)
   t_i : nat;         (* entries inserted by the current memtable.add attempt *)
   t_my : option nat; (* queue position of the CommitBatch once it is stored in a slot *)
-  t_err : bool;      (* an error was sent through the oneshot by this thread: return it after publish *)
   t_permit : bool;   (* holds a commit_sem permit *)
 }.
 Definition thr0 : thr :=
-  {| t_pc := CIdle; t_cnt := 0; t_seq := 0; t_i := 0; t_my := None; t_err := false; t_permit := false |}.
+  {| t_pc := CIdle; t_cnt := 0; t_seq := 0; t_i := 0; t_my := None; t_permit := false |}.
 Definition with_pc (t : thr) (p : ppc) : thr :=
-  {| t_pc := p; t_cnt := t_cnt t; t_seq := t_seq t; t_i := t_i t; t_my := t_my t; t_err := t_err t; t_permit := t_permit t |}.
+  {| t_pc := p; t_cnt := t_cnt t; t_seq := t_seq t; t_i := t_i t; t_my := t_my t; t_permit := t_permit t |}.
 Definition with_cnt (t : thr) (n : nat) : thr :=
-  {| t_pc := t_pc t; t_cnt := n; t_seq := t_seq t; t_i := t_i t; t_my := t_my t; t_err := t_err t; t_permit := t_permit t |}.
+  {| t_pc := t_pc t; t_cnt := n; t_seq := t_seq t; t_i := t_i t; t_my := t_my t; t_permit := t_permit t |}.
 Definition with_seq (t : thr) (n : nat) : thr :=
-  {| t_pc := t_pc t; t_cnt := t_cnt t; t_seq := n; t_i := t_i t; t_my := t_my t; t_err := t_err t; t_permit := t_permit t |}.
+  {| t_pc := t_pc t; t_cnt := t_cnt t; t_seq := n; t_i := t_i t; t_my := t_my t; t_permit := t_permit t |}.
 Definition with_i (t : thr) (n : nat) : thr :=
-  {| t_pc := t_pc t; t_cnt := t_cnt t; t_seq := t_seq t; t_i := n; t_my := t_my t; t_err := t_err t; t_permit := t_permit t |}.
+  {| t_pc := t_pc t; t_cnt := t_cnt t; t_seq := t_seq t; t_i := n; t_my := t_my t; t_permit := t_permit t |}.
 Definition with_my (t : thr) (m : option nat) : thr :=
-  {| t_pc := t_pc t; t_cnt := t_cnt t; t_seq := t_seq t; t_i := t_i t; t_my := m; t_err := t_err t; t_permit := t_permit t |}.
-Definition with_err (t : thr) (e : bool) : thr :=
-  {| t_pc := t_pc t; t_cnt := t_cnt t; t_seq := t_seq t; t_i := t_i t; t_my := t_my t; t_err := e; t_permit := t_permit t |}.
+  {| t_pc := t_pc t; t_cnt := t_cnt t; t_seq := t_seq t; t_i := t_i t; t_my := m; t_permit := t_permit t |}.
 Definition with_permit (t : thr) (e : bool) : thr :=
-  {| t_pc := t_pc t; t_cnt := t_cnt t; t_seq := t_seq t; t_i := t_i t; t_my := t_my t; t_err := t_err t; t_permit := e |}.
+  {| t_pc := t_pc t; t_cnt := t_cnt t; t_seq := t_seq t; t_i := t_i t; t_my := t_my t; t_permit := e |}.
 
 (* probe transactions *)
 Inductive rpc := RIdle | RLoaded (h : nat) | RReg (h : nat).
@@ -129,7 +131,7 @@ Inductive obs := OFull | ONone | OPartial.
 
 (* background tasks and the closer *)
 Inductive fpc := FInit | FWait | FWoken | FRunning | FFlushed | FSignaled | FNoPending | FError | FErrSignaled
-               | FNotified | FIdle | FExit.
+               | FNotified | FIdle | FRenotified | FExit.
 Inductive lpc := LInit | LWait | LWoken | LRunning | LDone | LError | LSignaled | LIdle | LExit.
 Inductive xpc := XIdle | XStarted | XPipeDown | XSignaled | XStopFlag | XNotified | XJoin | XTasksStopped
                | XSynced | XEnd | XReturned.
@@ -146,6 +148,7 @@ Record bgstate := {
   g_lpc : lpc; g_lpermit : bool; g_lrunning : bool;
   g_xpc : xpc;
   g_dirty : bool;       (* the active memtable holds at least one entry *)
+  g_ffailed : bool;     (* the flush task's `flush_failed` of the current round *)
 }.
 
 Record plstate := {
@@ -190,57 +193,60 @@ Definition st_bg s x := {| thrs := thrs s; rdrs := rdrs s; qlog := qlog s; qhead
 
 Definition bg_imm g x := {| g_imm := x; g_l0 := g_l0 g; g_epoch := g_epoch g; g_pipe_sd := g_pipe_sd g; g_stall_sd := g_stall_sd g;
   g_bgerr := g_bgerr g; g_stop := g_stop g; g_fpc := g_fpc g; g_fpermit := g_fpermit g; g_frunning := g_frunning g; g_fcount := g_fcount g;
-  g_lpc := g_lpc g; g_lpermit := g_lpermit g; g_lrunning := g_lrunning g; g_xpc := g_xpc g; g_dirty := g_dirty g |}.
+  g_lpc := g_lpc g; g_lpermit := g_lpermit g; g_lrunning := g_lrunning g; g_xpc := g_xpc g; g_dirty := g_dirty g; g_ffailed := g_ffailed g |}.
 Definition bg_l0 g x := {| g_imm := g_imm g; g_l0 := x; g_epoch := g_epoch g; g_pipe_sd := g_pipe_sd g; g_stall_sd := g_stall_sd g;
   g_bgerr := g_bgerr g; g_stop := g_stop g; g_fpc := g_fpc g; g_fpermit := g_fpermit g; g_frunning := g_frunning g; g_fcount := g_fcount g;
-  g_lpc := g_lpc g; g_lpermit := g_lpermit g; g_lrunning := g_lrunning g; g_xpc := g_xpc g; g_dirty := g_dirty g |}.
+  g_lpc := g_lpc g; g_lpermit := g_lpermit g; g_lrunning := g_lrunning g; g_xpc := g_xpc g; g_dirty := g_dirty g; g_ffailed := g_ffailed g |}.
 Definition bg_epoch g x := {| g_imm := g_imm g; g_l0 := g_l0 g; g_epoch := x; g_pipe_sd := g_pipe_sd g; g_stall_sd := g_stall_sd g;
   g_bgerr := g_bgerr g; g_stop := g_stop g; g_fpc := g_fpc g; g_fpermit := g_fpermit g; g_frunning := g_frunning g; g_fcount := g_fcount g;
-  g_lpc := g_lpc g; g_lpermit := g_lpermit g; g_lrunning := g_lrunning g; g_xpc := g_xpc g; g_dirty := g_dirty g |}.
+  g_lpc := g_lpc g; g_lpermit := g_lpermit g; g_lrunning := g_lrunning g; g_xpc := g_xpc g; g_dirty := g_dirty g; g_ffailed := g_ffailed g |}.
 Definition bg_pipe_sd g x := {| g_imm := g_imm g; g_l0 := g_l0 g; g_epoch := g_epoch g; g_pipe_sd := x; g_stall_sd := g_stall_sd g;
   g_bgerr := g_bgerr g; g_stop := g_stop g; g_fpc := g_fpc g; g_fpermit := g_fpermit g; g_frunning := g_frunning g; g_fcount := g_fcount g;
-  g_lpc := g_lpc g; g_lpermit := g_lpermit g; g_lrunning := g_lrunning g; g_xpc := g_xpc g; g_dirty := g_dirty g |}.
+  g_lpc := g_lpc g; g_lpermit := g_lpermit g; g_lrunning := g_lrunning g; g_xpc := g_xpc g; g_dirty := g_dirty g; g_ffailed := g_ffailed g |}.
 Definition bg_stall_sd g x := {| g_imm := g_imm g; g_l0 := g_l0 g; g_epoch := g_epoch g; g_pipe_sd := g_pipe_sd g; g_stall_sd := x;
   g_bgerr := g_bgerr g; g_stop := g_stop g; g_fpc := g_fpc g; g_fpermit := g_fpermit g; g_frunning := g_frunning g; g_fcount := g_fcount g;
-  g_lpc := g_lpc g; g_lpermit := g_lpermit g; g_lrunning := g_lrunning g; g_xpc := g_xpc g; g_dirty := g_dirty g |}.
+  g_lpc := g_lpc g; g_lpermit := g_lpermit g; g_lrunning := g_lrunning g; g_xpc := g_xpc g; g_dirty := g_dirty g; g_ffailed := g_ffailed g |}.
 Definition bg_bgerr g x := {| g_imm := g_imm g; g_l0 := g_l0 g; g_epoch := g_epoch g; g_pipe_sd := g_pipe_sd g; g_stall_sd := g_stall_sd g;
   g_bgerr := x; g_stop := g_stop g; g_fpc := g_fpc g; g_fpermit := g_fpermit g; g_frunning := g_frunning g; g_fcount := g_fcount g;
-  g_lpc := g_lpc g; g_lpermit := g_lpermit g; g_lrunning := g_lrunning g; g_xpc := g_xpc g; g_dirty := g_dirty g |}.
+  g_lpc := g_lpc g; g_lpermit := g_lpermit g; g_lrunning := g_lrunning g; g_xpc := g_xpc g; g_dirty := g_dirty g; g_ffailed := g_ffailed g |}.
 Definition bg_stop g x := {| g_imm := g_imm g; g_l0 := g_l0 g; g_epoch := g_epoch g; g_pipe_sd := g_pipe_sd g; g_stall_sd := g_stall_sd g;
   g_bgerr := g_bgerr g; g_stop := x; g_fpc := g_fpc g; g_fpermit := g_fpermit g; g_frunning := g_frunning g; g_fcount := g_fcount g;
-  g_lpc := g_lpc g; g_lpermit := g_lpermit g; g_lrunning := g_lrunning g; g_xpc := g_xpc g; g_dirty := g_dirty g |}.
+  g_lpc := g_lpc g; g_lpermit := g_lpermit g; g_lrunning := g_lrunning g; g_xpc := g_xpc g; g_dirty := g_dirty g; g_ffailed := g_ffailed g |}.
 Definition bg_fpc g x := {| g_imm := g_imm g; g_l0 := g_l0 g; g_epoch := g_epoch g; g_pipe_sd := g_pipe_sd g; g_stall_sd := g_stall_sd g;
   g_bgerr := g_bgerr g; g_stop := g_stop g; g_fpc := x; g_fpermit := g_fpermit g; g_frunning := g_frunning g; g_fcount := g_fcount g;
-  g_lpc := g_lpc g; g_lpermit := g_lpermit g; g_lrunning := g_lrunning g; g_xpc := g_xpc g; g_dirty := g_dirty g |}.
+  g_lpc := g_lpc g; g_lpermit := g_lpermit g; g_lrunning := g_lrunning g; g_xpc := g_xpc g; g_dirty := g_dirty g; g_ffailed := g_ffailed g |}.
 Definition bg_fpermit g x := {| g_imm := g_imm g; g_l0 := g_l0 g; g_epoch := g_epoch g; g_pipe_sd := g_pipe_sd g; g_stall_sd := g_stall_sd g;
   g_bgerr := g_bgerr g; g_stop := g_stop g; g_fpc := g_fpc g; g_fpermit := x; g_frunning := g_frunning g; g_fcount := g_fcount g;
-  g_lpc := g_lpc g; g_lpermit := g_lpermit g; g_lrunning := g_lrunning g; g_xpc := g_xpc g; g_dirty := g_dirty g |}.
+  g_lpc := g_lpc g; g_lpermit := g_lpermit g; g_lrunning := g_lrunning g; g_xpc := g_xpc g; g_dirty := g_dirty g; g_ffailed := g_ffailed g |}.
 Definition bg_frunning g x := {| g_imm := g_imm g; g_l0 := g_l0 g; g_epoch := g_epoch g; g_pipe_sd := g_pipe_sd g; g_stall_sd := g_stall_sd g;
   g_bgerr := g_bgerr g; g_stop := g_stop g; g_fpc := g_fpc g; g_fpermit := g_fpermit g; g_frunning := x; g_fcount := g_fcount g;
-  g_lpc := g_lpc g; g_lpermit := g_lpermit g; g_lrunning := g_lrunning g; g_xpc := g_xpc g; g_dirty := g_dirty g |}.
+  g_lpc := g_lpc g; g_lpermit := g_lpermit g; g_lrunning := g_lrunning g; g_xpc := g_xpc g; g_dirty := g_dirty g; g_ffailed := g_ffailed g |}.
 Definition bg_fcount g x := {| g_imm := g_imm g; g_l0 := g_l0 g; g_epoch := g_epoch g; g_pipe_sd := g_pipe_sd g; g_stall_sd := g_stall_sd g;
   g_bgerr := g_bgerr g; g_stop := g_stop g; g_fpc := g_fpc g; g_fpermit := g_fpermit g; g_frunning := g_frunning g; g_fcount := x;
-  g_lpc := g_lpc g; g_lpermit := g_lpermit g; g_lrunning := g_lrunning g; g_xpc := g_xpc g; g_dirty := g_dirty g |}.
+  g_lpc := g_lpc g; g_lpermit := g_lpermit g; g_lrunning := g_lrunning g; g_xpc := g_xpc g; g_dirty := g_dirty g; g_ffailed := g_ffailed g |}.
 Definition bg_lpc g x := {| g_imm := g_imm g; g_l0 := g_l0 g; g_epoch := g_epoch g; g_pipe_sd := g_pipe_sd g; g_stall_sd := g_stall_sd g;
   g_bgerr := g_bgerr g; g_stop := g_stop g; g_fpc := g_fpc g; g_fpermit := g_fpermit g; g_frunning := g_frunning g; g_fcount := g_fcount g;
-  g_lpc := x; g_lpermit := g_lpermit g; g_lrunning := g_lrunning g; g_xpc := g_xpc g; g_dirty := g_dirty g |}.
+  g_lpc := x; g_lpermit := g_lpermit g; g_lrunning := g_lrunning g; g_xpc := g_xpc g; g_dirty := g_dirty g; g_ffailed := g_ffailed g |}.
 Definition bg_lpermit g x := {| g_imm := g_imm g; g_l0 := g_l0 g; g_epoch := g_epoch g; g_pipe_sd := g_pipe_sd g; g_stall_sd := g_stall_sd g;
   g_bgerr := g_bgerr g; g_stop := g_stop g; g_fpc := g_fpc g; g_fpermit := g_fpermit g; g_frunning := g_frunning g; g_fcount := g_fcount g;
-  g_lpc := g_lpc g; g_lpermit := x; g_lrunning := g_lrunning g; g_xpc := g_xpc g; g_dirty := g_dirty g |}.
+  g_lpc := g_lpc g; g_lpermit := x; g_lrunning := g_lrunning g; g_xpc := g_xpc g; g_dirty := g_dirty g; g_ffailed := g_ffailed g |}.
 Definition bg_lrunning g x := {| g_imm := g_imm g; g_l0 := g_l0 g; g_epoch := g_epoch g; g_pipe_sd := g_pipe_sd g; g_stall_sd := g_stall_sd g;
   g_bgerr := g_bgerr g; g_stop := g_stop g; g_fpc := g_fpc g; g_fpermit := g_fpermit g; g_frunning := g_frunning g; g_fcount := g_fcount g;
-  g_lpc := g_lpc g; g_lpermit := g_lpermit g; g_lrunning := x; g_xpc := g_xpc g; g_dirty := g_dirty g |}.
+  g_lpc := g_lpc g; g_lpermit := g_lpermit g; g_lrunning := x; g_xpc := g_xpc g; g_dirty := g_dirty g; g_ffailed := g_ffailed g |}.
 Definition bg_xpc g x := {| g_imm := g_imm g; g_l0 := g_l0 g; g_epoch := g_epoch g; g_pipe_sd := g_pipe_sd g; g_stall_sd := g_stall_sd g;
   g_bgerr := g_bgerr g; g_stop := g_stop g; g_fpc := g_fpc g; g_fpermit := g_fpermit g; g_frunning := g_frunning g; g_fcount := g_fcount g;
-  g_lpc := g_lpc g; g_lpermit := g_lpermit g; g_lrunning := g_lrunning g; g_xpc := x; g_dirty := g_dirty g |}.
+  g_lpc := g_lpc g; g_lpermit := g_lpermit g; g_lrunning := g_lrunning g; g_xpc := x; g_dirty := g_dirty g; g_ffailed := g_ffailed g |}.
 Definition bg_dirty g x := {| g_imm := g_imm g; g_l0 := g_l0 g; g_epoch := g_epoch g; g_pipe_sd := g_pipe_sd g; g_stall_sd := g_stall_sd g;
   g_bgerr := g_bgerr g; g_stop := g_stop g; g_fpc := g_fpc g; g_fpermit := g_fpermit g; g_frunning := g_frunning g; g_fcount := g_fcount g;
-  g_lpc := g_lpc g; g_lpermit := g_lpermit g; g_lrunning := g_lrunning g; g_xpc := g_xpc g; g_dirty := x |}.
+  g_lpc := g_lpc g; g_lpermit := g_lpermit g; g_lrunning := g_lrunning g; g_xpc := g_xpc g; g_dirty := x; g_ffailed := g_ffailed g |}.
+Definition bg_ffailed g x := {| g_imm := g_imm g; g_l0 := g_l0 g; g_epoch := g_epoch g; g_pipe_sd := g_pipe_sd g; g_stall_sd := g_stall_sd g;
+  g_bgerr := g_bgerr g; g_stop := g_stop g; g_fpc := g_fpc g; g_fpermit := g_fpermit g; g_frunning := g_frunning g; g_fcount := g_fcount g;
+  g_lpc := g_lpc g; g_lpermit := g_lpermit g; g_lrunning := g_lrunning g; g_xpc := g_xpc g; g_dirty := g_dirty g; g_ffailed := x |}.
 
 Definition bg0 : bgstate :=
   {| g_imm := 0; g_l0 := 0; g_epoch := 0; g_pipe_sd := false; g_stall_sd := false; g_bgerr := false; g_stop := false;
      g_fpc := FInit; g_fpermit := false; g_frunning := false; g_fcount := 0;
-     g_lpc := LInit; g_lpermit := false; g_lrunning := false; g_xpc := XIdle; g_dirty := false |}.
+     g_lpc := LInit; g_lpermit := false; g_lrunning := false; g_xpc := XIdle; g_dirty := false; g_ffailed := false |}.
 
 (* the store just opened with `v` as recovered horizon: set_seq_num(v) *)
 Definition pinit (c : cfg) (nthr nrdr v : nat) : plstate :=
@@ -267,7 +273,7 @@ Inductive label :=
 | LRet (r : result)
 | LObs (c : nat) (k : obs)
 | LSignal (shutdown : bool)
-| LMemWait | LMemWoken | LMemRunning | LMemFlushed | LMemNoPending | LMemError | LMemNotifiedLevel | LMemIdle | LMemExit
+| LMemWait | LMemWoken | LMemRunning | LMemFlushed | LMemNoPending | LMemError | LMemNotifiedLevel | LMemIdle | LMemRecheck | LMemExit
 | LLevelWait | LLevelWoken | LLevelRunning | LLevelDone (l0 : nat) | LLevelError | LLevelIdle | LLevelExit
 | LWakeLevel
 | LCloseStart | LClosePipeDown | LStopFlag | LStopNotified | LStopPoll | LStopJoin | LCloseTasksStopped
@@ -366,11 +372,11 @@ Definition step_commit (c : cfg) (s : plstate) (i : nat) (t : thr) (l : label) :
   | LEnqueued, CEnqDone => go CEnqueued
   (* env.write succeeded; the guard is dropped *)
   | LUnlocked, CEnqueued => Some (put_thr (st_mutex s None) i (with_i (with_pc t (CApplying false)) 0))
-  (* env.write failed *)
+  (* env.write failed: set_failure, mark_applied, unlock, publish, then wait for the oneshot like everybody *)
   | LWalFailed, CEnqueued => go CWalFailed
   | LFailCompleted, CWalFailed =>
       match my_batch s t with
-      | Some (p, b) => Some (put_thr (put_b s p (set_fail (complete b false))) i (with_err (with_pc t CFailDoneLocked) true))
+      | Some (p, b) => Some (put_thr (put_b s p (set_fail b)) i (with_pc t CFailDoneLocked))
       | None => None
       end
   | LMarked, CFailDoneLocked =>
@@ -400,7 +406,7 @@ Definition step_commit (c : cfg) (s : plstate) (i : nat) (t : thr) (l : label) :
   | LAfterApply true, CArenaFull => go CApplyFailed
   | LFailCompleted, CApplyFailed =>
       match my_batch s t with
-      | Some (p, b) => Some (put_thr (put_b s p (set_fail (complete b false))) i (with_err (with_pc t CFailDone) true))
+      | Some (p, b) => Some (put_thr (put_b s p (set_fail b)) i (with_pc t CFailDone))
       | None => None
       end
   | LMarked, CApplied | LMarked, CFailDone =>
@@ -469,18 +475,22 @@ Definition step_commit (c : cfg) (s : plstate) (i : nat) (t : thr) (l : label) :
       end
   | LPubCompleted, CVisDone p =>
       match get_b s p with
-      | Some b => Some (put_thr (put_b s p (complete b true)) i (with_pc t (CPubHold p)))
+      | Some b => Some (put_thr (put_b s p (complete b (negb (b_fail b)))) i (with_pc t (CPubHold p)))
       | None => None
       end
   | LPubExit, CDeqNone => go CPubExit
-  | LPublished, CPubExit => go (if t_err t then CRetErr else CWaitDone)
+  | LPublished, CPubExit => go CWaitDone
   (* commit() returns *)
   | LRet ResOk, CWaitDone =>
       match my_batch s t with
       | Some (_, b) => match b_res b with Some true => Some (do_return s i t ResOk) | _ => None end
       | None => None
       end
-  | LRet ResErr, CRetErr => Some (do_return s i t ResErr)
+  | LRet ResErr, CWaitDone =>
+      match my_batch s t with
+      | Some (_, b) => match b_res b with Some false => Some (do_return s i t ResErr) | _ => None end
+      | None => None
+      end
   | LRet ResErr, CEntered => guard (g_pipe_sd (bg s) || g_bgerr (bg s)) (Some (do_return s i t ResErr))
   | LRet ResErr, CStallReg _ => guard (g_stall_sd (bg s)) (Some (do_return s i t ResErr))
   | LRet ResErr, CLocked => Some (do_return (st_mutex s None) i t ResErr)      (* oracle.check refused *)
@@ -513,10 +523,15 @@ Definition step_flush (s : plstate) (l : label) : option plstate :=
   let g := bg s in
   let go p := Some (st_bg s (bg_fpc g p)) in
   match l, g_fpc g with
-  | LMemWait, FInit | LMemWait, FIdle => go FWait
+  | LMemWait, FInit | LMemWait, FRenotified => go FWait
+  (* after `running.store(false)`: nothing pending (or the round failed) -> back to notified().await *)
+  | LMemWait, FIdle => guard (g_ffailed g || Nat.eqb (g_imm g) 0) (go FWait)
+  (* ... otherwise the task notifies itself: a rotation whose wake-up was skipped while `running` was set *)
+  | LMemRecheck, FIdle =>
+      guard (negb (g_ffailed g) && Nat.ltb 0 (g_imm g)) (Some (st_bg s (bg_fpc (bg_fpermit g true) FRenotified)))
   | LMemWoken, FWait => guard (g_fpermit g) (Some (st_bg s (bg_fpc (bg_fpermit g false) FWoken)))
   | LMemExit, FWoken => guard (g_stop g) (go FExit)
-  | LMemRunning, FWoken => guard (negb (g_stop g)) (Some (st_bg s (bg_fcount (bg_fpc (bg_frunning g true) FRunning) 0)))
+  | LMemRunning, FWoken => guard (negb (g_stop g)) (Some (st_bg s (bg_ffailed (bg_fcount (bg_fpc (bg_frunning g true) FRunning) 0) false)))
   (* compact_memtable(): flushes the oldest immutable memtable, Ok(()) also when there is none *)
   | LMemFlushed, FRunning | LMemFlushed, FSignaled =>
       guard (match g_fpc g with FSignaled => Nat.ltb 0 (g_imm g) | _ => true end)
@@ -529,7 +544,7 @@ Definition step_flush (s : plstate) (l : label) : option plstate :=
   | LMemError, FRunning => go FError
   | LMemError, FSignaled => guard (Nat.ltb 0 (g_imm g)) (go FError)
   (* error_handler().set_error; write_stall.signal_shutdown() *)
-  | LSignal true, FError => Some (st_bg s (bg_fpc (bg_bgerr (bg_stall_sd (bg_epoch g (S (g_epoch g))) true) true) FErrSignaled))
+  | LSignal true, FError => Some (st_bg s (bg_ffailed (bg_fpc (bg_bgerr (bg_stall_sd (bg_epoch g (S (g_epoch g))) true) true) FErrSignaled) true))
   | LMemNotifiedLevel, FNoPending | LMemNotifiedLevel, FErrSignaled =>
       guard (Nat.ltb 0 (g_fcount g)) (Some (st_bg s (bg_fpc (bg_lpermit g true) FNotified)))
   | LMemIdle, FNotified => Some (st_bg s (bg_fpc (bg_frunning g false) FIdle))
